@@ -9,14 +9,33 @@ use crate::rng::mix;
 use jbonsai::vocoder::Vocoder;
 
 pub fn run(ctx: &mut Ctx) {
-    let n = ctx.n(320, 20000);
+    let n = ctx.n(1280, 20000);
     ctx.run_cases("postfilter", n, false, |ctx, rng, idx| {
         let order = if idx % 10 == 0 { 2 } else if idx % 10 == 1 { 3 } else { rng.range(3, 40) };
         let alpha = alpha_pick(rng);
         let rate = RATES[(idx / 2) % RATES.len()];
         let beta = if idx % 7 == 0 { 0.5 } else { rng.uniform(0.01, 0.5) };
         let target = rng.uniform(0.05, 1.3);
-        let c = random_cepstrum(rng, order, alpha, target);
+        let resonant = idx % 4 == 3;
+        let order = if resonant { 40 } else { order };
+        let rate = if resonant { RATES[3 + idx % 3] } else { rate };
+        let beta = if resonant { rng.uniform(0.3, 0.5) } else { beta };
+        let (alpha, c) = if resonant {
+            // log of a sharp pole (pair) in the warped domain: the impulse response rings for
+            // hundreds of samples (still inside the implementation's 576-tap horizon)
+            let alpha = rng.uniform(0.45, 0.6);
+            let r = rng.uniform(0.95, 0.985);
+            let th = if rng.chance(0.5) { 0.0 } else { rng.uniform(0.0, 0.15) };
+            let g = rng.uniform(0.2, 0.65);
+            let mut c: Vec<f64> = (0..order).map(|k| if k == 0 { 0.0 } else { g * 2.0 * r.powi(k as i32) * (k as f64 * th).cos() / k as f64 }).collect();
+            c[0] = rng.uniform(-1.0, 2.0);
+            (alpha, c)
+        } else {
+            (alpha, random_cepstrum(rng, order, alpha, target))
+        };
+        if resonant {
+            ctx.count("resonant_cepstra", 1.0);
+        }
         // the law: c'_1 = c_1, c'_m = (1+beta) c_m for m >= 2 (c'_0 free)
         let mut cp = c.clone();
         for m in 2..order {
@@ -72,7 +91,12 @@ pub fn run(ctx: &mut Ctx) {
             return;
         }
         if shape_post > 2.0 {
-            ctx.count("outside_pade_range_skipped", 1.0);
+            // outside the Pade range of the spectrum law; the energy clause only needs the
+            // 576-tap horizon, so it is still checked (up to a shape of 5 nepers)
+            ctx.count("outside_pade_range_law_skipped", 1.0);
+            if shape_post <= 5.0 {
+                energy_clause(ctx, &s0, &sb, &descr(), order, alpha, beta, rate, true);
+            }
             return;
         }
         // measured log spectrum with beta, on >= 4*order harmonics
@@ -122,29 +146,45 @@ pub fn run(ctx: &mut Ctx) {
             .fold(0.0f64, |m, (a, b)| m.max((a - b).abs()))
             / s0.peak.max(1e-300);
         ctx.max("max_relative_change_by_postfilter", moved);
-        // (c) energy preservation within 1 %, when the response fits the implementation's horizon
-        if s0.decayed && sb.decayed {
-            let e0 = s0.energy();
-            let eb = sb.energy();
-            let head: f64 = s0.period.iter().take(576).map(|x| x * x).sum::<f64>() / s0.p as f64;
-            if head >= 0.9999 * e0 {
-                let ratio = eb / e0;
-                ctx.count("energy_checked", 1.0);
-                ctx.max("worst_energy_deviation", (ratio - 1.0).abs());
-                if !((ratio - 1.0).abs() <= 0.01) {
-                    ctx.violation("energy-not-preserved", descr().set("energy_ratio", ratio));
-                }
-                if moved > 1e-3 {
-                    ctx.nontrivial(mix(&[order as u64, (alpha * 10.0) as u64, (beta * 10.0) as u64, rate as u64]));
-                }
-            } else {
-                ctx.count("energy_outside_576_tap_horizon", 1.0);
-            }
-        } else {
-            ctx.count("energy_not_decayed_skipped", 1.0);
-        }
+        energy_clause(ctx, &s0, &sb, &descr(), order, alpha, beta, rate, false);
         if ctx.want_sample() {
             ctx.sample(descr().set("worst_law_error_nepers", worst).set("fitted_c0", c0p).set("harmonics", hs.len()));
         }
     });
+}
+
+/// (c) energy preservation within 1 %, when the response fits the implementation's 576-tap horizon
+#[allow(clippy::too_many_arguments)]
+fn energy_clause(ctx: &mut Ctx, s0: &crate::pulse::Steady, sb: &crate::pulse::Steady, descr: &J, order: usize, alpha: f64, beta: f64, rate: usize, beyond_pade: bool) {
+    if !(s0.decayed && sb.decayed) {
+        ctx.count("energy_not_decayed_skipped", 1.0);
+        return;
+    }
+    let e0 = s0.energy();
+    let eb = sb.energy();
+    let head: f64 = s0.period.iter().take(576).map(|x| x * x).sum::<f64>() / s0.p as f64;
+    let head_b: f64 = sb.period.iter().take(576).map(|x| x * x).sum::<f64>() / sb.p as f64;
+    if head < 0.9999 * e0 || head_b < 0.9999 * eb {
+        ctx.count("energy_outside_576_tap_horizon", 1.0);
+        return;
+    }
+    let head256: f64 = sb.period.iter().take(256).map(|x| x * x).sum::<f64>() / sb.p as f64;
+    if head256 < 0.99 * eb {
+        ctx.count("energy_checked_with_response_longer_than_256_taps", 1.0);
+    }
+    let ratio = eb / e0;
+    ctx.count("energy_checked", 1.0);
+    if beyond_pade {
+        ctx.count("energy_checked_beyond_pade_range", 1.0);
+        ctx.max("worst_energy_deviation_beyond_pade_range", (ratio - 1.0).abs());
+    } else {
+        ctx.max("worst_energy_deviation", (ratio - 1.0).abs());
+    }
+    if !((ratio - 1.0).abs() <= 0.01) {
+        ctx.violation("energy-not-preserved", descr.clone().set("energy_ratio", ratio).set("beyond_pade_range", beyond_pade));
+    }
+    let moved = s0.period.iter().zip(&sb.period).fold(0.0f64, |m, (a, b)| m.max((a - b).abs())) / s0.peak.max(1e-300);
+    if moved > 1e-3 {
+        ctx.nontrivial(mix(&[order as u64, (alpha * 10.0) as u64, (beta * 10.0) as u64, rate as u64, beyond_pade as u64]));
+    }
 }
